@@ -115,7 +115,7 @@ var EntryPoints = []EntryPoint{
 			return Result{"", e, t, false}
 		}
 		var ps []control.Paragraph
-		for i := 0; i < 10000; i++ {
+		for i := 0; i < 1000000; i++ {
 			p, err := pr.Next()
 			if err == io.EOF {
 				return Result{canonParas(ps), false, "", false}
@@ -125,7 +125,7 @@ var EntryPoints = []EntryPoint{
 			}
 			ps = append(ps, *p)
 		}
-		return Result{"runaway", true, "more than 10000 paragraphs", true}
+		return Result{"runaway", true, "more than 1000000 paragraphs", true}
 	}},
 	{"control.ParseDsc", func(in string) Result {
 		d, err := control.ParseDsc(bufio.NewReader(strings.NewReader(in)), "/x/y.dsc")
@@ -314,6 +314,7 @@ func Run(r *mc.Run) {
 		return
 	}
 	runTotality(r)
+	runLong(r)
 	runEdits(r)
 	runDeterminism(r)
 	runSchedules(r)
@@ -431,6 +432,66 @@ func runTotality(r *mc.Run) {
 }
 
 var editBytes = []byte{0, ' ', '\n', ':', '-', '(', '[', '<', '$', ',', '0', 'a', 0xff}
+
+// long inputs: each entry point on inputs of up to ~70 KB built by repeating one component of a valid seed (the statement
+// speaks of inputs up to 64 KiB); the calls must return (watchdog) without panicking
+func longInputs() []In {
+	rep := strings.Repeat
+	var out []In
+	add := func(entry string, texts ...string) {
+		for _, t := range texts {
+			out = append(out, In{entry, t})
+		}
+	}
+	add("version.Parse", "1."+rep("0", 70000), rep("9", 70000)+":1", "1-"+rep("a", 70000), rep("1:", 30000), rep(" ", 70000)+"1", "1"+rep("-", 70000))
+	add("dependency.ParseArch", rep("a", 70000), rep("a-", 30000), "a-b-"+rep("c", 70000))
+	add("dependency.ParseArchitectures", rep("amd64 ", 10000), rep(" ", 70000), rep("a-b-c\n", 10000))
+	add("dependency.Parse", rep("a", 70000), rep("a, ", 20000), rep("a | ", 15000)+"b", "a ("+rep(">", 70000), "a (>= "+rep("1", 70000)+")", "a ["+rep("x ", 30000)+"]", "a "+rep("<x> ", 15000), rep("(", 70000), rep("[", 70000), rep("${", 30000), "a "+rep("[x] ", 10)+rep(",", 60000), rep("\n", 70000)+"a")
+	para := "A: 1\n" + rep(" c\n", 15000)
+	add("control.ParagraphReader", para, rep("A: 1\n\n", 10000), rep("K"+": v\n", 1)+rep("# c\n", 15000), rep("\n", 70000), "A:"+rep(" ", 70000), rep("A", 70000)+": v\n", rep("A: 1\n", 10000))
+	add("control.ParagraphReader.Next", para, rep("A: 1\n\n", 10000))
+	add("control.ParseDsc", "Source: x\nFiles:\n"+rep(" d41d8cd98f00b204e9800998ecf8427e 10 f.dsc\n", 1500), "Source: x\nBinary: "+rep("a, ", 20000)+"b\n", "Source: x\nBuild-Depends: "+rep("a (>= 1), ", 7000)+"b\n", "Version: "+rep("1", 70000)+"\n")
+	add("control.ParseChanges", "Source: x\nFiles:\n"+rep(" d41d8cd98f00b204e9800998ecf8427e 10 devel optional f.dsc\n", 1200), "Binary: "+rep("a ", 30000)+"\n", "Changes:\n"+rep(" line\n", 10000))
+	add("control.ParseControl", "Source: x\n\n"+rep("Package: p\nArchitecture: any\nDepends: a | b\n\n", 1200), "Source: x\nUploaders: "+rep("A B <a@b>, ", 6000)+"\n")
+	add("control.ParseBinaryIndex", rep("Package: p\nVersion: 1.0-1\nArchitecture: amd64\nInstalled-Size: 1\nSize: 2\n\n", 900), "Package: p\nTag: "+rep("a::b, ", 10000)+"c\n")
+	add("control.ParseSourceIndex", rep("Package: p\nBinary: a, b\nVersion: 1.0-1\nArchitecture: any all\n\n", 1000))
+	add("deb.Control", "Package: p\nVersion: 1\nArchitecture: amd64\nDescription: s\n"+rep(" long line\n", 6000))
+	entry := "hello (1.0-1) unstable; urgency=low\n\n  * x\n\n -- A <a@b>  Mon, 02 Jan 2006 15:04:05 +0100\n\n"
+	add("changelog.Parse", rep(entry, 600), "hello (1.0-1) unstable; urgency=low\n\n"+rep("  * x\n", 10000)+"\n -- A <a@b>  Mon, 02 Jan 2006 15:04:05 +0100\n", "hello (1.0-1) unstable; "+rep("k=v, ", 12000)+"z=1\n\n  * x\n\n -- A <a@b>  Mon, 02 Jan 2006 15:04:05 +0100\n", rep("\n", 70000))
+	add("changelog.ParseOne", entry, "hello (1.0-1) "+rep("unstable ", 7000)+"; urgency=low\n\n  * x\n\n -- A <a@b>  Mon, 02 Jan 2006 15:04:05 +0100\n")
+	return out
+}
+
+func runLong(r *mc.Run) {
+	ins := longInputs()
+	r.Scenario("totality-long-inputs", map[string]interface{}{"inputs": len(ins), "sizes": "up to ~70 KB, one repeated component each"}, len(ins), func(i int, st *mc.Stats) bool {
+		st.Evals++
+		sl := enter(i, ins[i].Entry, ins[i].Text)
+		v, res := checkTotal("totality-long-inputs", ins[i], true)
+		sl.leave()
+		if v != nil {
+			// keep the artefact small: the text is reproducible from the generator; store its head and length
+			st.Violate(v)
+			st.Class(ins[i].Entry + ":" + v.Clause)
+		} else if res.Err {
+			st.Class(ins[i].Entry + ":error")
+		} else {
+			st.Class(ins[i].Entry + ":value")
+			st.Nontrivial++
+		}
+		if st.WantSample() && i%9 == 0 {
+			st.Sample(map[string]interface{}{"entry": ins[i].Entry, "bytes": len(ins[i].Text), "head": clip(ins[i].Text[:min(60, len(ins[i].Text))])})
+		}
+		return true
+	})
+}
+
+func min(a, b int) int {
+	if a < b {
+		return a
+	}
+	return b
+}
 
 func runEdits(r *mc.Run) {
 	type job struct{ entry, seed string }
